@@ -20,12 +20,12 @@ CONFIG = {
         "every shared-map operation is atomic in the model (no torn reads, no 'concurrent map writes' crash can be exhibited by it)",
     ],
     "mult_search": 3,
-    "refuted": ["C10_unguarded_refuted", "C10_unguarded_refuted_nested"],
-    "partial": [],
+    "refuted": ["C10_unguarded_refuted", "C10_unguarded_refuted_nested", "C10_full_unguarded_refuted"],
+    "partial": ["C10_memory_guarded_partial (data-race freedom proved over the model's access events with happens-before = program order + the sync.Mutex rule; the Go memory model is not formalised and the event/code correspondence rests on the translator tables and the race detector)"],
 }
 
 MANIFEST = {
     "text": "SchemaCache as a small-step shared-state machine (lookup / insert placeholder / refTo lookup-or-insert / nested build / set To / return, thread-local continuation stacks, FIFO mutex). Without the lock the model refutes the property by two concrete 2-thread schedules (a caller sees another's placeholder with To == nil; a caller gets a schema with an unlinked nested reference); the fix (fix: commit 0c9f9ff, a mutex held for the whole Schema build) makes the code follow the guarded discipline, which a computed lemma over the regenerated access tables checks on every run. Forced schedules (the witnesses and random ones) are replayed on the real cache/codec/Global codec and traces + per-call results compared with the model; real goroutines run under the race detector in crash-isolated workers.",
-    "note": "Partial: the Go memory model is not formalised; the model's map operations are atomic, so data-race freedom of the Go code rests on the lock-discipline lemma over the translator's tables plus race-detector exploration. Trusted: Coq kernel, translator, harness scheduler; sync.Mutex modelled.",
+    "note": "Partial: the Go memory model is not formalised. Race freedom (no conflicting accesses unordered by program order + the sync.Mutex synchronisation rule; every To field written once, before any caller reads it) is proved for the model's access events, for all schedules; that these are the Go code's accesses rests on the translator's token tables and race-detector exploration; the model's map operations are atomic. Trusted: Coq kernel, translator, harness scheduler; sync.Mutex modelled (FIFO hand-off).",
     "technique": "Rocq/Coq proof (invariants of a shared-state machine for all schedules/threads/type graphs) + regenerated lock-discipline tables + forced-schedule differential correspondence in Coq + race-detector oracle",
 }
